@@ -377,6 +377,8 @@ def c10(run):
     scs = vlib.generate(run, "Distribute", cfg, "dist", fam="C10", cap=(1500 if quick else 6000), timeout=3000)
     log("Distribute.tla: %s (plan, assignment, window) triples model-checked, %d emitted" % (run.cov["gen"][-1].get("enumerated"), len(scs)))
     scs += all_scenarios(run, 200, 3000, only=("sel", "win", "agg", "fn"))
+    # histograms (whose buckets get spread over the engines), name collisions, extreme magnitudes
+    scs += vlib.generate(run, "Gen_WF", gen_cfg(run.tier, run.seed, 1, ["EmitWF"]), "wf", fam="C10")
     scs += vlib.gen_random(run, binary, "compose", 600 if quick else 12000, "C10")
     chunks = max(1, min(vlib.NCPU // 2, len(scs) // 200))
     traces = vlib.replay(run, binary, "dist", scs, "d", chunks=chunks)
